@@ -59,7 +59,7 @@ func decSdkIntOps() []*opSpec {
 			call: dI(D.MulInt), mut: dI(D.MulIntMut),
 			ref: func(a, b *big.Int) (*big.Int, bool) { return okv(mulr(a, b)) }},
 		{name: "Dec.QuoInt", mutName: "Dec.QuoIntMut", ak: kDec, bk: kSdkInt, dom: dDec, mode: mTrunc, recv: true, quo: true,
-			call: dI(D.QuoInt), mut: dI(D.QuoIntMut), ref: refDiv(big1, mTrunc)},
+			call: dI(D.QuoInt), mut: dI(D.QuoIntMut), ref: refQuoIntTrunc},
 	}
 }
 
@@ -69,7 +69,7 @@ func decInt64Ops() []*opSpec {
 			call: d64(D.MulInt64), mut: d64(D.MulInt64Mut),
 			ref: func(a, b *big.Int) (*big.Int, bool) { return okv(mulr(a, b)) }},
 		{name: "Dec.QuoInt64", mutName: "Dec.QuoInt64Mut", ak: kDec, bk: kI64, dom: dDec, mode: mTrunc, recv: true, quo: true,
-			call: d64(D.QuoInt64), mut: d64(D.QuoInt64Mut), ref: refDiv(big1, mTrunc)},
+			call: d64(D.QuoInt64), mut: d64(D.QuoInt64Mut), ref: refQuoIntTrunc},
 	}
 }
 
